@@ -34,6 +34,7 @@ func (rn *runner) buildCase(sh shape, m mutation, scriptLen int) (*sCase, bool, 
 	if err != nil {
 		return nil, false, err
 	}
+	un := tx
 	tx = fresh(tx)
 	tx.NetworkFee = calc + sp.NetDelta
 	fixSysFee(sp, tx)
@@ -44,7 +45,7 @@ func (rn *runner) buildCase(sh shape, m mutation, scriptLen int) (*sCase, bool, 
 	if m.Wit != nil && !m.Wit(n, sp, tx) {
 		return nil, false, nil
 	}
-	c := &sCase{Rule: m.Rule, Tx: tx, Gas: gasOf}
+	c := &sCase{Rule: m.Rule, Tx: tx, Gas: gasOf, Unsigned: un, Signers: sp.Signers}
 	c.Need = calc + int64(len(tx.Bytes())-size)*bc.FeePerByte()
 	if m.Pre != nil {
 		for _, ps := range m.Pre(n, sp) {
@@ -96,6 +97,9 @@ func (rn *runner) runCase(shapeName string, c *sCase) {
 		e.r.Outcome("sound:" + wantStr(c.Want) + "->" + v.Class)
 		if c.Rule == "valid" && (rn.st.Sc != nil || rn.st.Only != nil || rn.st.Expect != nil) {
 			e.out("sound-new-states", rn.st.Name+"/"+shapeName+"->"+v.Class)
+		}
+		if path == pathFromBytes && e.isR2(rn.st.Name) {
+			e.out("r2-states", rn.st.Name+"/"+shapeName+"/"+c.Rule+"->"+v.Class)
 		}
 		if v.Class == "PANIC" {
 			e.f.add(fmt.Sprintf("sound:panic:%s:%s:%s:%s", c.Rule, shapeName, rn.st.Name, path), rec(path, v))
@@ -334,13 +338,9 @@ func (e *env) runSound() map[string]any {
 		sh    *shape
 		level bool
 	}
-	shs := append(shapes(), extShapes()...)
+	shs := allShapes()
 	var jobs []job
-	states := append([]string{}, soundStates...)
-	for _, s := range extStates() {
-		states = append(states, s.Name)
-	}
-	states = append(append(states, e.mtbNames...), e.comNames...)
+	states := e.soundStateNames()
 	perState := map[string]int{}
 	for _, sn := range states {
 		st := e.state(sn)
@@ -391,8 +391,7 @@ func (e *env) runSound() map[string]any {
 			return
 		}
 		onchain := rn.lastOnChain().Hash()
-		ms := append(mutations(onchain), rn.extMutations()...)
-		for _, m := range ms {
+		for _, m := range rn.allMutations(onchain) {
 			if e.r.Expired() {
 				return
 			}
@@ -414,12 +413,47 @@ func (e *env) runSound() map[string]any {
 	return map[string]any{"states": states, "shapes": names, "shapes_per_state": perState, "variants_per_shape_max": nmut, "jobs": len(jobs)}
 }
 
+func (e *env) isR2(name string) bool {
+	for _, n := range e.r2Names {
+		if n == name {
+			return true
+		}
+	}
+	return false
+}
+
+// allShapes is the whole shape menu (base, first and second extension).
+func allShapes() []shape { return append(append(shapes(), extShapes()...), r2Shapes()...) }
+
+// allMutations is the whole variant menu of the runner's state.
+func (rn *runner) allMutations(onchain util.Uint256) []mutation {
+	return append(append(mutations(onchain), rn.extMutations()...), r2Mutations()...)
+}
+
+// soundStateNames lists the states of the soundness menu.
+func (e *env) soundStateNames() []string {
+	states := append([]string{}, soundStates...)
+	for _, s := range extStates() {
+		states = append(states, s.Name)
+	}
+	states = append(append(states, e.mtbNames...), e.comNames...)
+	return append(states, e.r2Names...)
+}
+
 // stateLevel submits the transactions that are special in the runner's state:
 // a duplicate of an on-chain transaction and the cast of the Conflicts scenario.
 func (rn *runner) stateLevel() {
+	for _, c := range rn.levelCases() {
+		rn.runCase("state-level", c)
+	}
+}
+
+// levelCases builds the state-level submissions.
+func (rn *runner) levelCases() []*sCase {
 	f := rn.facts
+	var out []*sCase
 	mk := func(rule string, tx *transaction.Transaction) *sCase {
-		c := &sCase{Rule: rule, Tx: tx, Need: tx.NetworkFee}
+		c := &sCase{Rule: rule, Tx: tx, Need: tx.NetworkFee, Unsigned: stripped(tx), Signers: acctsOf(f, tx)}
 		// the network fee was exact when the transaction was built; a later
 		// fee-per-byte increase makes it too small
 		if need, _, err := calcFee(rn.n.BC, f.Magic, stripped(tx), acctsOf(f, tx)); err == nil {
@@ -428,11 +462,14 @@ func (rn *runner) stateLevel() {
 		c.Want, c.Why = valid(f, c)
 		return c
 	}
-	rn.runCase("state-level", mk("duplicate-of-onchain-tx", rn.lastOnChain()))
+	out = append(out, mk("duplicate-of-onchain-tx", rn.lastOnChain()))
 	for _, role := range []string{"by-sender", "by-cosigner", "second-signer", "by-stranger", "onchain-X", "onchain-Y"} {
 		cast := rn.e.cast
 		if rn.st.Sc != nil && rn.st.Sc == rn.e.scMTB {
 			cast = rn.e.castMTB
+		}
+		if rn.st.Cast != nil {
+			cast = rn.st.Cast
 		}
 		b := cast.get(role)
 		if b == nil {
@@ -442,8 +479,9 @@ func (rn *runner) stateLevel() {
 		if err != nil {
 			panic(err)
 		}
-		rn.runCase("state-level", mk("conflicts-cast-"+role, tx))
+		out = append(out, mk("conflicts-cast-"+role, tx))
 	}
+	return out
 }
 
 func stripped(tx *transaction.Transaction) *transaction.Transaction {
